@@ -43,7 +43,7 @@ def confirm(prop, h, unknown, result, tier, plan):
     os.makedirs(rdir, exist_ok=True)
     rpath = os.path.join(rdir, h.name + ".json")
     crate, relp = h.where
-    prelude = plan.get("incrate_prelude", {}).get((crate, relp), "")
+    prelude = "  use paste::paste;\n" + plan.get("incrate_prelude", {}).get((crate, relp), "")
     _install(prop, crate, relp, h.name, h.text, h.unwind, h.solver, prelude, "")
     tests, err = _kani_print(h.pkg, h.path, h.slice)
     rec = {"property": prop, "harness": h.path, "harness_name": h.name, "package": h.pkg, "where": [crate, relp], "slice": h.slice,
